@@ -42,7 +42,7 @@ def data_str(d: dict) -> str:
     c = d["c"]
     if c == "atom":
         return d["a"]
-    if c in ("dict", "cmap"):
+    if c in ("dict", "cmap", "defaultdict"):
         return c + "{" + ",".join(f"{data_str(k)}:{data_str(v)}" for k, v in zip(d["ks"], d["vs"])) + "}"
     return c + "(" + ",".join(data_str(x) for x in d["xs"]) + ")"
 
@@ -310,7 +310,7 @@ def _has_multi_rep(d: dict) -> bool:
     c = d["c"]
     if c == "atom":
         return univ.n_reps(d["a"]) > 1
-    if c in ("dict", "cmap"):
+    if c in ("dict", "cmap", "defaultdict"):
         return any(_has_multi_rep(x) for x in d["ks"] + d["vs"])
     return any(_has_multi_rep(x) for x in d["xs"])
 
